@@ -6,6 +6,8 @@ import CC.Props.C05
 import CC.Props.C06
 import CC.Props.C09
 import CC.Props.C11
+import CC.Props.C17
+import CC.Props.C18
 /-! # Witnesses: the hypotheses of the reachable-world theorems are met by concrete histories
 
 These are **tests** (`#guard`, evaluated by the Lean interpreter when the file is built — a failing
@@ -122,5 +124,35 @@ is hybridized, of a right without one classic -/
   ((w.msk.secrets.lookup (Right.fromPoint [1])).bind List.head?).map (·.2.hyb) == some true &&
   ((w.msk.secrets.lookup (Right.fromPoint [2])).bind List.head?).map (·.2.hyb) == some false &&
   ((w.msk.secrets.lookup (Right.fromPoint [1, 2])).bind List.head?).map (·.2.hyb) == some true)
+
+/-! C03 (rename): a key generated before renaming D::A to D::Z opens an encapsulation made afterwards
+for D::Z, and the cover relation with the new names says so -/
+#guard (do
+  let u ← keygenOf w4 "S::T && D::A"
+  let w1 := [Op.keygen (pol "S::T && D::A"), .edit (.rename "D" "A" "Z"), .update].foldl World.step w4
+  let (s, x) ← encapsOf w1 "S::L && D::Z" 9000
+  pure (decaps u x == some s &&
+    Spec.coversClause w1.msk.structure_ ([⟨"S", "T"⟩, ⟨"D", "A"⟩].map (renQA "D" "A" "Z")) ([⟨"S", "L"⟩, ⟨"D", "A"⟩].map (renQA "D" "A" "Z")))) == some true
+
+/-! C17: two key generations in a row hand out different identifiers, both registered afterwards -/
+#guard (do
+  let u1 ← keygenOf w4 "D::A"
+  let w1 := w4.step (.keygen (pol "D::A"))
+  let u2 ← keygenOf w1 "D::A"
+  let w2 := w1.step (.keygen (pol "D::A"))
+  pure (u1.id != u2.id && w2.msk.users.contains u1.id && w2.msk.users.contains u2.id && !w4.msk.users.contains u1.id)) == some true
+
+/-! C18: re-encapsulation after a rekey; a key for another right does not open the result, a
+refreshed authorised key does -/
+#guard (do
+  let ua ← keygenOf w4 "D::A"
+  let ub ← keygenOf (w4.step (.keygen (pol "D::A"))) "D::B"
+  let w1 := [Op.keygen (pol "D::A"), .keygen (pol "D::B")].foldl World.step w4
+  let (_, x) ← encapsOf w1 "D::A" 9000
+  let w2 := w1.step (.rekey (pol "D::A"))
+  let r := recaps w2.msk w2.msk.mpk x 9500
+  let (s', x') ← r.1.toOption
+  let ra := refresh w2.msk ua false w2.rng
+  pure (decaps ub x' == none && decaps ra.2.2.1 x' == some s')) == some true
 
 end CC.Props.NonVacuity
